@@ -101,7 +101,9 @@ def run_cases(exe, cases, auto=2):
     printed, _ = vlib.run_sharded(mexe, [], ["p %d %d %s" % (auto, c.w, c.a) for c in cases])
     cl = ["%d %d %s %s" % (c.w, c.mode, p, fmt_list([ord(x) for x in c.j])) for c, p in zip(cases, printed)]
     impl, crashes = vlib.run_sharded(exe, [], cl)
-    jl = ["j %d %d %s %s %s" % (auto, c.w, c.a, c.v, i.split(" ")[0]) for c, i in zip(cases, impl)]
+    # a ",!<marker>" suffix (C17 impurity bits, ",!o<bits>" = a convenience overload disagrees with the primary call) is not
+    # part of the rendered text: the text before it is judged, and the marker itself makes the case a failure
+    jl = ["j %d %d %s %s %s" % (auto, c.w, c.a, c.v, (i.split(" ")[0].split(",!")[0] or "-")) for c, i in zip(cases, impl)]
     res, _ = vlib.run_sharded(mexe, [], jl)
     out = []
     for c, p, i, r in zip(cases, printed, impl, res):
@@ -109,7 +111,7 @@ def run_cases(exe, cases, auto=2):
         if len(parts) != 2 or parts[1] not in ("0", "1"):
             out.append((c, p, i, r, None))
         else:
-            out.append((c, p, i, parts[0], parts[1] == "1"))
+            out.append((c, p, i, parts[0], parts[1] == "1" and ",!" not in i))
     return out, crashes
 
 
@@ -173,7 +175,8 @@ def replay_dict(c, p, i, m, verdict, note=""):
     return {"component": "template", "width": c.w, "template": txt(p), "template_units": p, "value_json": c.j,
             "ast_tokens": c.a, "value_tokens": c.v, "mode": c.mode,
             "observed_impl": txt(i) if not i.startswith("CRASH") else i, "model_render_ast": txt(m),
-            "oracle": "impl output == expand ast value : %s" % verdict, "note": note}
+            "oracle": "impl output == expand ast value : %s" % verdict,
+            "note": note + (" ; marker ,!o<bits>: the overloads Render(content, value, stream) (1), Render<Stream>(content, length, value) (2), Render<Stream>(content, value) (4), JSON::Parse(content) (8) on NUL-terminated copies disagree with the primary calls" if ",!o" in i else "")}
 
 
 def nontrivial(c):
